@@ -305,13 +305,13 @@ class Interp:
         finally:
             self.ctx.pop()
 
-    def call_func(self, fnode: ast.FunctionDef, args: list, kwargs=None):
+    def call_func(self, fnode: ast.FunctionDef, args: list, kwargs=None, base_env=None):
         self.depth += 1
         if self.depth > 60:
             raise AnalysisError("absint: recursion too deep")
         try:
             params = [a.arg for a in fnode.args.args]
-            env = {}
+            env = dict(base_env) if base_env else {}
             defaults = fnode.args.defaults
             for i, p in enumerate(params):
                 if i < len(args):
@@ -340,6 +340,9 @@ class Interp:
         return None
 
     def stmt(self, st, env):
+        if isinstance(st, ast.FunctionDef):
+            env[st.name] = _Closure(st, env)
+            return None
         if isinstance(st, ast.Expr):
             if not isinstance(st.value, ast.Constant):
                 self.expr(st.value, env)
@@ -950,6 +953,8 @@ class Interp:
             return self.expr(f.node.body, env2)
         if isinstance(f, _PyCall):
             return f.fn(*vals, **kw)
+        if isinstance(f, _Closure):
+            return self.call_func(f.node, vals, kw, base_env=f.env)
         if isinstance(f, Node) and isinstance(f.f.get("__call__"), _PyCall):
             return f.f["__call__"].fn(*vals, **kw)
         if isinstance(f, _DictMeth):
@@ -1023,6 +1028,12 @@ _MISSING = object()
 
 class PyNative:
     """Marker base class: instances are used natively by the interpreter (attributes, subscripts, iteration, str)."""
+
+
+class _Closure:
+    def __init__(self, node, env):
+        self.node = node
+        self.env = env
 
 
 class _ModRef:
